@@ -11,26 +11,27 @@ extern uint32_t lzma_verif_mf_offset_bias, lzma_verif_lz_reserve_cap;
 #endif
 
 enum { E_STREAM, E_RAW, E_BLOCK, E_MT };
-enum { C_LZMA2_HC3, C_LZMA2_BT4, C_LZMA2_BT2, C_LZMA2_HC4, C_DELTA_LZMA2, C_X86_LZMA2, C_LZMA1, C_LZMA2_BT3 };
+enum { C_LZMA2_HC3, C_LZMA2_BT4, C_LZMA2_BT2, C_LZMA2_HC4, C_DELTA_LZMA2, C_X86_LZMA2, C_LZMA1, C_LZMA2_BT3, C_DELTA_X86_LZMA2 };
 typedef struct { const char *name; int enc, chain; } config;
 static const config CFG[] = {
 	{ "stream/lzma2-hc3-fast", E_STREAM, C_LZMA2_HC3 }, { "stream/lzma2-bt4-normal", E_STREAM, C_LZMA2_BT4 }, { "stream/delta+lzma2", E_STREAM, C_DELTA_LZMA2 },
 	{ "stream/x86+lzma2", E_STREAM, C_X86_LZMA2 }, { "raw/lzma2-bt4", E_RAW, C_LZMA2_BT4 }, { "raw/lzma2-hc4", E_RAW, C_LZMA2_HC4 }, { "raw/lzma1", E_RAW, C_LZMA1 }, { "raw/x86+lzma2", E_RAW, C_X86_LZMA2 },
-	{ "block/lzma2-bt2", E_BLOCK, C_LZMA2_BT2 }, { "mt2/lzma2-hc3", E_MT, C_LZMA2_HC3 }, { "raw/lzma2-bt3", E_RAW, C_LZMA2_BT3 },
+	{ "block/lzma2-bt2", E_BLOCK, C_LZMA2_BT2 }, { "mt2/lzma2-hc3", E_MT, C_LZMA2_HC3 }, { "raw/lzma2-bt3", E_RAW, C_LZMA2_BT3 }, { "stream/delta+x86+lzma2", E_STREAM, C_DELTA_X86_LZMA2 },
 };
 #define NCFG ((int)(sizeof CFG / sizeof CFG[0]))
-static lzma_options_lzma opt, opt_upd, opt_mf; static lzma_options_delta odelta = { .type = LZMA_DELTA_TYPE_BYTE, .dist = 2 }; static lzma_filter chain[4], chain_upd[4], chain_other[4], chain_bad[4], chain_mf[4];
+static lzma_options_lzma opt, opt_upd, opt_mf; static lzma_options_delta odelta = { .type = LZMA_DELTA_TYPE_BYTE, .dist = 2 }; static lzma_filter chain[4], chain_upd[4], chain_other[4], chain_bad[4], chain_mf[4], chain_initfail[4]; static lzma_options_bcj obcj_bad = { .start_offset = 2 };
 #define NICE 8
 static void mk_chain(int c) {
 	lzma_lzma_preset(&opt, 0); opt.dict_size = 4096; opt.nice_len = NICE; opt.depth = 0;
-	switch (c) { case C_LZMA2_HC3: case C_X86_LZMA2: case C_DELTA_LZMA2: opt.mf = LZMA_MF_HC3; opt.mode = LZMA_MODE_FAST; break; case C_LZMA2_BT4: case C_LZMA1: opt.mf = LZMA_MF_BT4; opt.mode = LZMA_MODE_NORMAL; break;
+	switch (c) { case C_LZMA2_HC3: case C_X86_LZMA2: case C_DELTA_LZMA2: case C_DELTA_X86_LZMA2: opt.mf = LZMA_MF_HC3; opt.mode = LZMA_MODE_FAST; break; case C_LZMA2_BT4: case C_LZMA1: opt.mf = LZMA_MF_BT4; opt.mode = LZMA_MODE_NORMAL; break;
 		case C_LZMA2_BT2: opt.mf = LZMA_MF_BT2; opt.mode = LZMA_MODE_NORMAL; break; case C_LZMA2_BT3: opt.mf = LZMA_MF_BT3; opt.mode = LZMA_MODE_NORMAL; break; case C_LZMA2_HC4: opt.mf = LZMA_MF_HC4; opt.mode = LZMA_MODE_FAST; break; }
-	int n = 0; if (c == C_DELTA_LZMA2) chain[n++] = (lzma_filter){ LZMA_FILTER_DELTA, &odelta }; if (c == C_X86_LZMA2) chain[n++] = (lzma_filter){ LZMA_FILTER_X86, NULL };
+	int n = 0; if (c == C_DELTA_LZMA2 || c == C_DELTA_X86_LZMA2) chain[n++] = (lzma_filter){ LZMA_FILTER_DELTA, &odelta }; if (c == C_X86_LZMA2 || c == C_DELTA_X86_LZMA2) chain[n++] = (lzma_filter){ LZMA_FILTER_X86, NULL };
 	chain[n++] = (lzma_filter){ c == C_LZMA1 ? LZMA_FILTER_LZMA1 : LZMA_FILTER_LZMA2, &opt }; chain[n].id = LZMA_VLI_UNKNOWN;
 	// update variants: same chain with other lc/lp/pb; a different chain; an invalid chain
 	opt_upd = opt; opt_upd.lc = 0; opt_upd.lp = 2; opt_upd.pb = 0; memcpy(chain_upd, chain, sizeof chain); chain_upd[n - 1].options = &opt_upd;
 	opt_mf = opt; opt_mf.mf = opt.mf == LZMA_MF_HC3 ? LZMA_MF_BT3 : opt.mf == LZMA_MF_HC4 ? LZMA_MF_BT4 : opt.mf == LZMA_MF_BT4 ? LZMA_MF_HC4 : LZMA_MF_HC3; opt_mf.mode = (opt_mf.mf & 0x10) ? LZMA_MODE_NORMAL : LZMA_MODE_FAST;	/* same hash width where one exists: only the tree/chain array changes size */ memcpy(chain_mf, chain, sizeof chain); chain_mf[n - 1].options = &opt_mf;	// same chain, other match finder (hash chain <-> binary tree)
 	int m = 0; if (c != C_DELTA_LZMA2) chain_other[m++] = (lzma_filter){ LZMA_FILTER_DELTA, &odelta }; chain_other[m++] = (lzma_filter){ LZMA_FILTER_LZMA2, &opt_upd }; chain_other[m].id = LZMA_VLI_UNKNOWN;
+	chain_initfail[0] = (lzma_filter){ LZMA_FILTER_ARM, &obcj_bad }; chain_initfail[1] = (lzma_filter){ LZMA_FILTER_LZMA2, &opt }; chain_initfail[2].id = LZMA_VLI_UNKNOWN;	// well-formed chain that only the filter's own initialisation refuses (start offset not a multiple of the ARM alignment)
 	chain_bad[0] = (lzma_filter){ LZMA_FILTER_LZMA2, &opt }; chain_bad[1] = (lzma_filter){ LZMA_FILTER_DELTA, &odelta }; chain_bad[2].id = LZMA_VLI_UNKNOWN;
 }
 
@@ -43,7 +44,7 @@ static unsigned char in[1 << 16], comp[1 << 17], dec[1 << 16], refout[1 << 16]; 
 static int outchunk; static const config *CF; static char hist[400]; static const char *in_name;
 static long n_hist, n_flush_checks, n_updates_ok, n_updates_refused, n_sync_refused; static h_set states;
 
-static void hist_str(const int *h, int n) { char *p = hist; *p = 0; for (int i = 0; i < n; i++) { int a = h[i] >> 8, k = h[i] & 255; if (a == OP_UPD) p += sprintf(p, "%sUPDATE(%s)", i ? " " : "", k == 0 ? "lclppb" : k == 1 ? "other-chain" : k == 3 ? "other-mf" : "invalid"); else p += sprintf(p, "%s%s(%d)", i ? " " : "", OPN[a], KS[k]); } }
+static void hist_str(const int *h, int n) { char *p = hist; *p = 0; for (int i = 0; i < n; i++) { int a = h[i] >> 8, k = h[i] & 255; if (a == OP_UPD) p += sprintf(p, "%sUPDATE(%s)", i ? " " : "", k == 0 ? "lclppb" : k == 1 ? "other-chain" : k == 3 ? "other-mf" : k == 4 ? "init-refused" : "invalid"); else p += sprintf(p, "%s%s(%d)", i ? " " : "", OPN[a], KS[k]); } }
 #define VIOL(cls, ...) do { char k_[120]; snprintf(k_, sizeof k_, "flush:%s:%s", cls, CF->name); char t_[260]; snprintf(t_, sizeof t_, __VA_ARGS__); \
 	h_fail(k_, "%s config=%s out=%d input=%s history=[%s] replay={\"harness\":\"c12_flush\",\"config\":\"%s\",\"outchunk\":%d,\"input\":\"%s\",\"history\":\"%s\"}", t_, CF->name, outchunk, in_name, hist, CF->name, outchunk, in_name, hist); bad = 1; } while (0)
 
@@ -90,18 +91,20 @@ static void run_history(const int *h, int hl) {
 	if (r != LZMA_OK) { VIOL("init", "encoder init failed (%d)", r); return; }
 	n_hist++;
 	size_t given = 0, ocap = 0; int expected_blocks = 0; size_t since_block = 0; s.next_out = comp; s.avail_out = 0;
-	int sync_capable = !(CF->chain == C_X86_LZMA2 || CF->chain == C_LZMA1) && CF->enc != E_MT;
+	int sync_capable = !(CF->chain == C_X86_LZMA2 || CF->chain == C_DELTA_X86_LZMA2 || CF->chain == C_LZMA1) && CF->enc != E_MT;
 	int at_block_boundary = 1, just_synced = 0, refused_sync = 0; const lzma_filter *cur = chain; int lcpb_changed = 0, chain_changed_at_block = -1; int blocks_so_far = 0, upd_at_zero = 0;
 	for (int i = 0; i <= hl && !bad; i++) {
 		int a = i == hl ? -1 : h[i] >> 8, ki = i == hl ? 0 : h[i] & 255;
 		if (a == OP_UPD) {
 			if (CF->enc == E_BLOCK) continue;	// lzma_filters_update is not offered for a lone Block encoder
-			const lzma_filter *nf = ki == 0 ? chain_upd : ki == 1 ? chain_other : ki == 3 ? chain_mf : chain_bad;
+			if (CF->enc == E_MT && ki == 4) continue;	// the threaded encoder validates a new chain only as far as lzma_stream_encoder_mt() itself does (memory usage); an option that only the filter's own init refuses surfaces later as the worker's error, as it would for the initial chain
+			const lzma_filter *nf = ki == 0 ? chain_upd : ki == 1 ? chain_other : ki == 3 ? chain_mf : ki == 4 ? chain_initfail : chain_bad;
 			lzma_ret u = lzma_filters_update(&s, nf);
 			int must_accept = 0;
 			if (ki == 0 && just_synced && sync_capable && cur == chain) must_accept = 1;	// LZMA2 lc/lp/pb right after a completed sync flush
 			if ((ki <= 1 || ki == 3) && at_block_boundary && (CF->enc == E_STREAM || CF->enc == E_MT) && !(ki == 0 && CF->chain == C_LZMA1)) must_accept = 1;	// any valid chain between Blocks
 			if (ki == 2 && u == LZMA_OK) VIOL("update-invalid-accepted", "an invalid chain (LZMA2 not last) was accepted by lzma_filters_update");
+			if (ki == 4 && u == LZMA_OK) VIOL("update-invalid-accepted", "a chain whose ARM filter has start_offset=2 was accepted by lzma_filters_update");
 			if (must_accept && u != LZMA_OK) VIOL("update-refused", "lzma_filters_update(%s) refused (%d) although allowed at this point", ki == 0 ? "lc/lp/pb" : ki == 3 ? "other match finder" : "other chain", u);
 			if (u == LZMA_OK) { n_updates_ok++; if (ki == 0) { lcpb_changed = 1; cur = chain_upd; if (at_block_boundary) chain_changed_at_block = -1; } if (ki == 1) { cur = chain_other; chain_changed_at_block = blocks_so_far; if (blocks_so_far == 0) upd_at_zero = 1; } if (ki == 3 && cur == chain) cur = chain_mf; } else n_updates_refused++;
 			continue; }
@@ -142,7 +145,7 @@ static void run_history(const int *h, int hl) {
 				// whole stream: liblzma and (for supported chains) the independent parser
 				size_t ip = 0, op = 0; uint64_t ml = UINT64_MAX; lzma_ret dr = lzma_stream_buffer_decode(&ml, 0, NULL, comp, &ip, clen, dec, &op, sizeof dec);
 				if (dr != LZMA_OK || op != given || memcmp(dec, in, given) || ip != clen) VIOL("final-not-decodable", "finished stream does not decode to the whole input (ret %d, %zu/%zu bytes)", dr, op, given);
-				else if (CF->chain != C_X86_LZMA2) { size_t ol = 0; ref_xz_info info; int rr = ref_xz_decode(comp, clen, refout, sizeof refout, &ol, &info);
+				else if (CF->chain != C_X86_LZMA2 && CF->chain != C_DELTA_X86_LZMA2) { size_t ol = 0; ref_xz_info info; int rr = ref_xz_decode(comp, clen, refout, sizeof refout, &ol, &info);
 					if (rr != REF_OK || ol != given || memcmp(refout, in, given)) VIOL("final-not-decodable-ref", "reference parser: finished stream invalid or wrong (%d)", rr);
 					else { if ((int)info.nblk != expected_blocks) VIOL("block-count", "%u Blocks, expected %d", info.nblk, expected_blocks);
 						for (unsigned b = 0; b < info.nblk && !bad; b++) if (info.blk_usize[b] == 0) VIOL("empty-block", "Block %u is empty", b);
@@ -174,18 +177,18 @@ static void set_input(int id) {
 	}
 	in_len = 4096;
 }
-static void alphabet(int full) { nops = 0; for (int a = 0; a < 4; a++) for (int k = 0; k < 5; k++) if (full || k == 0 || k == 1 || k == 4) ops[nops++] = a << 8 | k; for (int v = 0; v < 3; v++) ops[nops++] = OP_UPD << 8 | v; ops[nops++] = OP_RUN1 << 8 | 2; ops[nops++] = OP_RUN1 << 8 | 4; }
+static void alphabet(int full) { nops = 0; for (int a = 0; a < 4; a++) for (int k = 0; k < 5; k++) if (full || k == 0 || k == 1 || k == 4) ops[nops++] = a << 8 | k; for (int v = 0; v < 3; v++) ops[nops++] = OP_UPD << 8 | v; ops[nops++] = OP_UPD << 8 | 4; ops[nops++] = OP_RUN1 << 8 | 2; ops[nops++] = OP_RUN1 << 8 | 4; }
 
 int main(int argc, char **argv) {
 	h_init(); h_watchdog(5, 12);	/* 60 s of CPU inside one element = the call under test does not return */ h_set_init(&states, 1 << 14); if (argc < 5) return 2;
 	if (!strcmp(argv[1], "one")) { /* replay: config outchunk input history */
 		for (int c = 0; c < NCFG; c++) if (!strcmp(CFG[c].name, argv[2])) CF = &CFG[c]; if (!CF) return 2; outchunk = atoi(argv[3]); set_input(!strcmp(argv[4], "abbabaab-periodic") ? 0 : !strcmp(argv[4], "sigma2-mixed") ? 1 : 2);
 		int h[32], n = 0; char *p = argc > 5 ? argv[5] : ""; while (*p && n < 32) { char nm[32]; char arg[32]; int used = 0; if (sscanf(p, " %31[^(](%31[^)])%n", nm, arg, &used) < 2) break; p += used;
-			int a = -1; for (int i = 0; i < 6; i++) if (!strcmp(nm, OPN[i])) a = i; if (a < 0) break; int k = 0; if (a == OP_UPD) k = !strcmp(arg, "lclppb") ? 0 : !strcmp(arg, "other-chain") ? 1 : !strcmp(arg, "other-mf") ? 3 : 2; else for (int i = 0; i < 6; i++) if (KS[i] == atoi(arg)) k = i; h[n++] = a << 8 | k; }
+			int a = -1; for (int i = 0; i < 6; i++) if (!strcmp(nm, OPN[i])) a = i; if (a < 0) break; int k = 0; if (a == OP_UPD) k = !strcmp(arg, "lclppb") ? 0 : !strcmp(arg, "other-chain") ? 1 : !strcmp(arg, "other-mf") ? 3 : !strcmp(arg, "init-refused") ? 4 : 2; else for (int i = 0; i < 6; i++) if (KS[i] == atoi(arg)) k = i; h[n++] = a << 8 | k; }
 		run_history(h, n); printf("fails=%ld\n", h_fails); return h_fails != 0; }
 	int thorough = !strcmp(argv[2], "thorough"); sh = atoi(argv[3]); nsh = atoi(argv[4]);
 	for (int c = 0; c < NCFG; c++) for (int oc = 0; oc < 2; oc++) for (int inp = 0; inp < 2; inp++) {
-		CF = &CFG[c]; outchunk = oc ? 1 : 0; set_input(CF->chain == C_X86_LZMA2 ? 2 : inp); if (CF->chain == C_X86_LZMA2 && inp) continue;
+		CF = &CFG[c]; outchunk = oc ? 1 : 0; { int x86 = CF->chain == C_X86_LZMA2 || CF->chain == C_DELTA_X86_LZMA2; set_input(x86 ? 2 : inp); if (x86 && inp) continue; }
 		if (CF->enc == E_MT && oc) continue;
 		int h[16];
 		int core = (c == 0 || c == 1 || c == 4) && !oc && !inp;
